@@ -35,6 +35,8 @@ Definition oracle_code (c : Case) : N :=
   end.
 
 Definition oracle (c : Case) : bool := (oracle_code c =? 0)%N.
+Definition outside_judged (c : Case) : bool :=
+  match iall (map (interp (top_field c)) (c_rows c)) with Some None => true | _ => false end.
 (* correspondence with the builder model, for schemas inside the modelled core *)
 Definition corr (c : Case) : bool :=
   match to_marrow (c_fields c) (c_rows c) with
@@ -44,10 +46,18 @@ Definition corr (c : Case) : bool :=
     | Ok a, Ok i => list_eqb arr_eqb a i
     | Err, Err => true
     | Panic _, Panic _ => true
+    (* the builder model has no float -> text formatting (f32/f64 Display) and answers Err there: a case
+       with such a row (interp = ISkip) that the implementation accepts is outside the model *)
+    | Err, Ok _ => outside_judged c
     | _, _ => false
     end
   end.
-Definition modelled (c : Case) : bool := match to_marrow (c_fields c) (c_rows c) with Some _ => true | None => false end.
+Definition modelled (c : Case) : bool :=
+  match to_marrow (c_fields c) (c_rows c), c_impl c with
+  | Some Err, Ok _ => negb (outside_judged c)
+  | Some _, _ => true
+  | None, _ => false
+  end.
 (* [cases inside the builder model; cases fully judged by the specification oracle] *)
 Definition info (cs : list Case) : list N :=
   [N.of_nat (length (filter modelled cs));
